@@ -217,6 +217,18 @@ def judgeEntry (st : St) (all : List Entry) (e : Entry) : Option (String × Stri
 
 def step (st : St) (op : List String) (impl : String) : LineOut St :=
   match op with
+  | ["createonly", _] =>
+    -- restart through serf.Create with the snapshot bytes only in <snapshot>.compact (a) and as the snapshot (b):
+    -- the clocks restored must be the same (not compared with the model: judged on the implementation's outputs)
+    let mon := match impl.splitOn " " with
+      | [a, b] =>
+        if a.startsWith "a=" && b.startsWith "b=" then
+          if String.ofList (a.toList.drop 2) == String.ofList (b.toList.drop 2) then none
+          else some ("compact-only-not-recovered-by-create",
+            s!"a node created on a directory holding only <snapshot>.compact restored clocks {a}, on the same bytes as the snapshot {b}")
+        else some ("malformed", impl)
+      | _ => some ("malformed", impl)
+    { state := st, model := none, monitor := mon }
   | ["crashall"] =>
     let m := modelCrashAll st
     let ents := match impl.splitOn " " with
